@@ -10,8 +10,8 @@
    A file is identified by f = [l |-> layer, r |-> role]  (r = 0: main file, r > 0: drop-in name).
    Content is a function of identity so that provenance shows in the result.
 
-   faults[f] \in {"none","reject","owner","group","symlink","malformed"}: what makes the read of
-   file f fail (callback verdict, restriction, parse error); flags = active restrictions.
+   faults[f] \subseteq {"reject","owner","group","symlink","malformed"}: what makes the read of
+   file f fail (callback verdict, violated restriction, parse error).
 
    Read(tree, faults)  — operational, in the order of the code: reverse scan for the main file,
                          drop-ins ascending by (layer, byte order), callback before use, stop at the
@@ -59,19 +59,28 @@ AllDrops(tree, i) == IF i > NLy(tree) THEN <<>> ELSE DropsOf(tree, i) \o AllDrop
 Consulted(tree) == MainScan(tree, NLy(tree)) \o AllDrops(tree, 1)
 
 \* ---------- one consulted file after the other ----------
-SecurityFault(x) == x \in {"owner", "group", "symlink"}
+\* faults[f] = SET of things that make the read of file f fail:
+\*   "symlink" "owner" "group"  a restriction in force that the file violates (checked first, in lstat order)
+\*   "reject"                   the caller's callback says no (asked after the restrictions, before parsing)
+\*   "malformed"                the content has a malformed line (found last)
+SecKinds == {"owner", "group", "symlink"}
 CodeOf(x) == CASE x = "reject" -> "ECONF_PARSING_CALLBACK_FAILED"
                [] x = "owner" -> "ECONF_WRONG_OWNER" [] x = "group" -> "ECONF_WRONG_GROUP"
                [] x = "symlink" -> "ECONF_ERROR_FILE_IS_SYM_LINK"
                [] x = "malformed" -> "ECONF_MISSING_BRACKET"
                [] OTHER -> "ECONF_SUCCESS"
+\* which codes may be reported for a failing file: a violated restriction wins over the callback, the
+\* callback over the content; among several violated restrictions any of their codes is accepted
+CodesOf(X) == IF X \cap SecKinds # {} THEN {CodeOf(x) : x \in X \cap SecKinds}
+              ELSE IF "reject" \in X THEN {CodeOf("reject")} ELSE {CodeOf(x) : x \in X}
+RefusedBeforeCallback(X) == X \cap SecKinds # {}
 \* index of the first consulted file that fails (0 = none)
-FirstFault(K, faults) == LET B == {j \in 1..Len(K) : faults[K[j]] # "none"} IN IF B = {} THEN 0 ELSE Min(B)
+FirstFault(K, faults) == LET B == {j \in 1..Len(K) : faults[K[j]] # {}} IN IF B = {} THEN 0 ELSE Min(B)
 \* paths handed to the callback: every consulted file up to the first failure; a file refused by a
 \* restriction is refused BEFORE the callback is asked
 CallbackLog(K, faults) ==
   LET ff == FirstFault(K, faults) IN
-  IF ff = 0 THEN K ELSE IF SecurityFault(faults[K[ff]]) THEN SubSeq(K, 1, ff - 1) ELSE SubSeq(K, 1, ff)
+  IF ff = 0 THEN K ELSE IF RefusedBeforeCallback(faults[K[ff]]) THEN SubSeq(K, 1, ff - 1) ELSE SubSeq(K, 1, ff)
 
 \* masking (merge_econf_files): a drop-in is dropped when a LATER consulted file has the same name
 Masked(K, j) == K[j].r # 0 /\ \E j2 \in (j+1)..Len(K) : K[j2].r = K[j].r
@@ -79,14 +88,15 @@ Unmasked(K) == LET idx == SelectSeq([j \in 1..Len(K) |-> j], LAMBDA j : ~Masked(
 
 Read(tree, faults) ==
   LET K == Consulted(tree)  ff == FirstFault(K, faults) IN
-  IF K = <<>> THEN [rc |-> "ECONF_NOFILE", log |-> <<>>, cfg |-> <<>>, errfile |-> <<>>, hist |-> <<>>]
-  ELSE IF ff # 0 THEN [rc |-> CodeOf(faults[K[ff]]), log |-> CallbackLog(K, faults), cfg |-> <<>>,
-                       errfile |-> <<K[ff]>>, hist |-> <<>>]
+  IF K = <<>> THEN [rc |-> "ECONF_NOFILE", rcs |-> {"ECONF_NOFILE"}, log |-> <<>>, cfg |-> <<>>, errfile |-> <<>>, hist |-> <<>>]
+  ELSE IF ff # 0 THEN LET cs == CodesOf(faults[K[ff]]) IN
+                      [rc |-> IF Cardinality(cs) = 1 THEN CHOOSE c \in cs : TRUE ELSE "one-of", rcs |-> cs,
+                       log |-> CallbackLog(K, faults), cfg |-> <<>>, errfile |-> <<K[ff]>>, hist |-> <<>>]
   ELSE LET U == Unmasked(K) IN
-       [rc |-> "ECONF_SUCCESS", log |-> K, errfile |-> <<>>, hist |-> K,
+       [rc |-> "ECONF_SUCCESS", rcs |-> {"ECONF_SUCCESS"}, log |-> K, errfile |-> <<>>, hist |-> K,
         cfg |-> FoldMerge([j \in 1..Len(U) |-> Content(tree, U[j])])]
 AllFiles(tree) == {File(l, r) : l \in 1..NLy(tree), r \in 0..7}
-NoFaults(tree) == [f \in AllFiles(tree) |-> "none"]
+NoFaults(tree) == [f \in AllFiles(tree) |-> {}]
 
 \* ---------- the sentence of C01 ----------
 Override(m1, m2) == [p \in DOMAIN m1 \cup DOMAIN m2 |-> IF p \in DOMAIN m2 THEN m2[p] ELSE m1[p]]
